@@ -11,16 +11,24 @@ def inventory_delta(ctx):
     replay names what has to be reviewed (a count can also change through a harmless rewrite — then the allow-list is updated)"""
     import re as _re
     try:
-        inv = {(a, b): c for a, b, c in json.load(open(os.path.join(vlib.LEAN, "TsRsVerif", "Generated", "tables.json")))["order_inventory"]}
+        tables = json.load(open(os.path.join(vlib.LEAN, "TsRsVerif", "Generated", "tables.json")))
+        per_file = tables["order_inventory"]
+        inv = {}
+        for a, b, c in per_file:
+            inv[(a.split("/")[0], b)] = inv.get((a.split("/")[0], b), 0) + c
         src = open(os.path.join(vlib.LEAN, "TsRsVerif", "Props", "C13.lean")).read()
         body = src[src.index("def orderAllowList"):src.index("theorem C13_inventory")]
         allow = {(a, b): int(c) for a, b, c in _re.findall(r'\("([^"]+)",\s*"([^"]+)",\s*(\d+)\)', body)}
     except (OSError, ValueError, KeyError):
         return
-    delta = [f"{k[0]}: {k[1]} {allow.get(k, 0)} -> {inv.get(k, 0)}" for k in sorted(set(inv) | set(allow)) if inv.get(k, 0) != allow.get(k, 0)]
+    delta = []
+    for k in sorted(set(inv) | set(allow)):
+        if inv.get(k, 0) != allow.get(k, 0):
+            where = ", ".join(f"{a} {c}" for a, b, c in per_file if a.split("/")[0] == k[0] and b == k[1])
+            delta.append(f"{k[0]}: {k[1]} {allow.get(k, 0)} -> {inv.get(k, 0)} (now: {where or 'nowhere'})")
     if delta:
-        ctx.broken.append("theorem C13_inventory (inventory of hash containers / environment reads / thread primitives = reviewed allow-list) no longer checks; "
-                          "occurrences that changed: " + "; ".join(delta[:12]))
+        ctx.broken.append("theorem C13_inventory (inventory of hash containers / environment reads / thread primitives per crate = reviewed allow-list) no longer checks; "
+                          "totals that changed: " + "; ".join(delta[:12]))
 
 
 def run(ctx):
